@@ -890,6 +890,202 @@ func (fr *Frame) findLoops() {
 			}
 		}
 	}
+	if fr.top {
+		fr.anchorLoops(heads)
+	}
+}
+
+// anchorLoops: the contract numbers the loops of a function by source order. When the loops were
+// reordered in the code (e.g. the cases of a switch were moved) the n-th loop is no longer the one the
+// n-th loop specification talks about; a specification "fits" a loop when every program variable it
+// names is in scope there. If some specification does not fit the loop with its number but a
+// one-to-one assignment of all specifications to fitting loops exists, the loops are renumbered
+// accordingly.
+func (fr *Frame) anchorLoops(heads []*ssa.BasicBlock) {
+	c := fr.ex.c
+	if c == nil || len(c.Loops) == 0 || len(heads) < 2 {
+		return
+	}
+	params := map[string]bool{}
+	for _, prm := range fr.fn.Params {
+		params[prm.Name()] = true
+	}
+	for _, gp := range c.GhostParams {
+		params[gp[0]] = true
+	}
+	scope := fr.fn.Pkg.Pkg.Scope()
+	// names available at each loop head
+	avail := make([]map[string]bool, len(heads))
+	for i, h := range heads {
+		m := map[string]bool{}
+		for _, phi := range fr.loops[h].phis {
+			if phi.Comment != "" {
+				m[phi.Comment] = true
+			}
+		}
+		for _, b := range fr.fn.Blocks {
+			for _, in := range b.Instrs {
+				d, ok := in.(*ssa.DebugRef)
+				if !ok {
+					continue
+				}
+				v, ok := d.Object().(*types.Var)
+				if !ok || v == nil || v.IsField() {
+					continue
+				}
+				if x, ok := d.X.(ssa.Instruction); ok && x.Block() != nil && x.Block().Dominates(h) {
+					m[v.Name()] = true
+				} else if _, isParam := d.X.(*ssa.Parameter); isParam {
+					m[v.Name()] = true
+				}
+			}
+		}
+		avail[i] = m
+	}
+	// program variables each specification names
+	var ords []int
+	for o := range c.Loops {
+		ords = append(ords, o)
+	}
+	sort.Ints(ords)
+	need := map[int][]string{}
+	for _, o := range ords {
+		seen := map[string]bool{}
+		var walk func(e *CExpr, bound map[string]bool)
+		walk = func(e *CExpr, bound map[string]bool) {
+			if e == nil {
+				return
+			}
+			if e.Op == "id" {
+				n := e.Name
+				if bound[n] || params[n] || seen[n] || strings.HasPrefix(n, "\\") || n == "MaxInt" || n == "MinInt" || n == "NaN" {
+					return
+				}
+				if scope.Lookup(n) != nil {
+					return
+				}
+				if _, isMacro := fr.ex.p.cs.Macros[n]; isMacro {
+					return
+				}
+				seen[n] = true
+				need[o] = append(need[o], n)
+				return
+			}
+			b2 := bound
+			if (e.Op == "forall" || e.Op == "exists") && e.Var != "" {
+				b2 = map[string]bool{}
+				for k := range bound {
+					b2[k] = true
+				}
+				b2[e.Var] = true
+			}
+			for _, a := range e.Args {
+				walk(a, b2)
+			}
+		}
+		ls := c.Loops[o]
+		for _, cl := range ls.Invariants {
+			walk(cl.Expr, map[string]bool{})
+		}
+		for _, cl := range ls.Decreases {
+			walk(cl.Expr, map[string]bool{})
+		}
+	}
+	// what kind of variable each name was when the contract was written (bindings.json): a loop-carried
+	// variable must again be loop-carried, with the same type
+	phiTypes := make([]map[string]string, len(heads))
+	for i, h := range heads {
+		m := map[string]string{}
+		for _, phi := range fr.loops[h].phis {
+			if phi.Comment != "" {
+				m[phi.Comment] = types.TypeString(phi.Type(), nil)
+			}
+		}
+		phiTypes[i] = m
+	}
+	fits := func(o, li int) bool {
+		for _, n := range need[o] {
+			if !avail[li][n] {
+				return false
+			}
+			if info, ok := fr.ex.p.bindings[bindKey(fr.ex.fname, fmt.Sprintf("loop%d", o), n)]; ok {
+				t, isPhi := phiTypes[li][n]
+				if info.Kind == "phi" && (!isPhi || t != info.Type) {
+					return false
+				}
+				if info.Kind == "local" && isPhi {
+					return false
+				}
+			}
+		}
+		return true
+	}
+	allOwn := true
+	for _, o := range ords {
+		if o < 1 || o > len(heads) || !fits(o, o-1) {
+			allOwn = false
+		}
+	}
+	if allOwn {
+		return
+	}
+	// one-to-one assignment (augmenting paths), each specification trying the loop with its own number first
+	matchOf := make([]int, len(heads)) // loop index -> spec ordinal (0 = none)
+	var try func(o int, seen []bool) bool
+	try = func(o int, seen []bool) bool {
+		cands := []int{}
+		if o >= 1 && o <= len(heads) {
+			cands = append(cands, o-1)
+		}
+		for i := range heads {
+			if i != o-1 {
+				cands = append(cands, i)
+			}
+		}
+		for _, i := range cands {
+			if seen[i] || !fits(o, i) {
+				continue
+			}
+			seen[i] = true
+			if matchOf[i] == 0 || try(matchOf[i], seen) {
+				matchOf[i] = o
+				return true
+			}
+		}
+		return false
+	}
+	for _, o := range ords {
+		if !try(o, make([]bool, len(heads))) {
+			return // no complete assignment: keep the source order (renamed variables are handled by their roles)
+		}
+	}
+	// renumber: matched loops take the number of their specification, the others the numbers left over
+	used := map[int]bool{}
+	for _, o := range matchOf {
+		if o != 0 {
+			used[o] = true
+		}
+	}
+	next := 1
+	moved := false
+	for i, h := range heads {
+		li := fr.loops[h]
+		if matchOf[i] != 0 {
+			if li.ordinal != matchOf[i] {
+				moved = true
+			}
+			li.ordinal = matchOf[i]
+			continue
+		}
+		for used[next] {
+			next++
+		}
+		li.ordinal = next
+		used[next] = true
+	}
+	if moved {
+		fr.ex.p.assumptions["loops of "+baseName(fr.ex.fname)+" were matched to their specifications by the variables in scope, not by source order (the loops were reordered in the code)"] = true
+	}
 }
 
 func (fr *Frame) loopPos(h *ssa.BasicBlock) token.Pos {
